@@ -596,6 +596,13 @@ def accumulator_lemmas():
     return out, bounded
 
 
+# (tiers, cbmc flags) of the ghost-cut targets, from measured cbmc CPU seconds (see the commit message)
+# measured (cbmc + extraction CPU seconds on a loaded machine, minisat / cadical): plain stump 37, hinge 74; stump visit 61 / 83, stump best 45 / 78,
+# hinge visit 105 / 123, hinge best 82 / 114: minisat everywhere, the hinge pair in the thorough tier
+OPT_PLAN = {('stump', 'visit'): (('quick', 'thorough'), []), ('stump', 'best'): (('quick', 'thorough'), []),
+            ('hinge', 'visit'): (('thorough',), []), ('hinge', 'best'): (('thorough',), [])}
+
+
 def targs(*want):
     return lambda d: astload.template_args(d) == list(want)
 
@@ -661,6 +668,12 @@ def build(tier):
         f = fit_fns(cls)
         targets.append(Target(f'{cls}_cache_clear', [f['clear']], 'specs/C10/fit.h', defines=['NV_FIT_CLEAR']))
         targets.append(Target(f'{cls}_fit_sweep', [f['sweep']], 'specs/C10/fit.h'))
+        # the ghost-cut clauses ("every boundary is evaluated exactly once" / "the final score is <= every candidate's") as separate targets
+        # over the same extracted sweep and the same prelude (defines select the clause set); tier / solver per measured cost (OPT_PLAN)
+        for part, define in (('visit', 'NV_OPT_VISIT'), ('best', 'NV_OPT_BEST')):
+            tiers, flags = OPT_PLAN[(cls, part)]
+            if tier in tiers:
+                targets.append(Target(f'{cls}_fit_sweep_opt_{part}', [fit_fns(cls)['sweep']], 'specs/C10/fit.h', defines=[define], cbmc_flags=flags, timeout=900 if tiers == ('thorough',) else None))
     AFF = 'src/wlearner/affine.cpp'
     targets.append(Target('affine_fit_feature', [affine_fit_fn()], 'specs/C10/fit_affine.h',
                           defines=[lambda: f'bin_affine={file_constant(AFF, "bin_affine")}', lambda: f'bin_missed={file_constant(AFF, "bin_missed")}']))
@@ -679,7 +692,8 @@ def build(tier):
                                            acc_fn('acc_update', AFFC, 'update', 'accumulator_t::update', select=npar(2))], AH))
     for nm, rt in (('rss_zero', 'double'), ('rss_constant', 'double'), ('fit_constant', 'struct nv_ev')):
         targets.append(Target(f'acc_{nm}', [acc_fn(f'acc_{nm}', ACC_CPP, nm, f'accumulator_t::{nm}', ret=rt)], AH))
-    targets.append(cluster_spec.cluster_target())
+    if tier == 'thorough':      # 47-54 s of cbmc CPU (cadical; minisat > 240 s): too heavy for the quick tier, one target (splitting the ghost bins saved 7 s only)
+        targets.append(cluster_spec.cluster_target())
     MH = 'specs/C10/trymerge.h'
     t = try_merge_fns()
     targets.append(Target('base_try_merge', [t['base']], MH))
@@ -710,9 +724,9 @@ def build(tier):
             'split of stump / hinge / affine / tables: for the position i of the given list with a non-missing (active) value, cluster.assign is called exactly once with THAT sample samples(i) and the group the predictor uses for its value, nothing is assigned for a missing one; robust to the capture lists (stubs, prototypes and closure structs are generated from the lambdas as they are in the source)',
             'wlearner::make_score (index discipline only): rss is clamped below by 1e3 * epsilon and passed with (k, n) unchanged and in order to exactly the formula the criterion names (AIC / AICc / BIC uninterpreted), the plain criterion returns the clamped rss',
             'minimum RSS of ONE candidate, over the reals, on the real scoring code walked at a generic output coefficient (symbolic number of outputs; specs/C10/rss_smt.py, back end B): stump cache_t::score (with x0_/r1_/r2_neg/pos, output_neg/pos and the file-local ::score walked at their calls): the rss handed to make_score is SUM_o [min-RSS(left) + min-RSS(right)] + missing_rss with min-RSS = r2 - r1^2/x0 per side and output, the stored coefficients output_neg / output_pos are the group means r1/x0, n = total + missing count; hinge cache_t::score_neg / score_pos (with beta_neg/pos, beta0, the twelve moment accessors and ::beta / ::score walked): rss = SUM_o [(r2 - B^2/D)(active side) + r2(inactive side)] + missing_rss with B = rx - t r1, D = x2 - 2 t x1 + t^2 x0, the stored slope is B/D; table cache_t::score(bin) = SUM_o (r2 - r1^2/x0); every division executed is defined under x0 > 0 resp. D > 0; lemmas: for every constant c resp. slope b the RSS r2 - 2 c r1 + x0 c^2 resp. r2 - 2 b B + b^2 D is >= that minimum, attained exactly at r1/x0 resp. B/D (unique for the constant); induction over the samples entered: these quadratic forms ARE the residual sums of squares SUM (res - c)^2 resp. SUM (res - b (x - t))^2 of the entries accumulated by accumulator_t::update (base: cleared accumulator; step: one update, as proved in accum.h), D = SUM (x - t)^2, and the moments of total minus left are the moments of the entries not in left',
-            'minimum over the candidates of a feature (stump, hinge sweeps; ghost cut): EVERY boundary between two different consecutive sorted values is evaluated exactly once (hinge: once per direction) and no other cut is; the score the cache ends with is <= every finite score evaluated there, <= the score it started with (so it stays the best over the features of the thread), is a number (not NaN), and is the old score or the score of a stored candidate',
+            'minimum over the candidates of a feature (ghost cut; separate targets over the same extracted sweeps: stump_fit_sweep_opt_visit / _opt_best in the quick tier, hinge_fit_sweep_opt_visit / _opt_best in the THOROUGH tier only, the plain *_fit_sweep targets carry none of these clauses): EVERY boundary between two different consecutive sorted values is evaluated exactly once (hinge: once per direction) and no other cut is; the score the cache ends with is <= every finite score evaluated there, <= the score it started with (so it stays the best over the features of the thread), is a number (not NaN), and is the old score or the score of a stored candidate',
             'score_dense: the rss is accumulated from exactly one reduction per bin, the one of the ghost bin being SUM_o (r2 - r1^2/x0) of that bin',
-            'accumulator_t::cluster() (k-split tables; symbolic number of bins >= 1; ghost bins b, b2, ghost levels L < L2): rows are built in order, row t as a copy of the finished row t - 1, and a finished row is never read or written again; cluster_id(L, b) is in [0, bins - L) -- every bin belongs to exactly one cluster of its level, below the level\'s number of clusters bins - L -- and cluster_id(0, b) == b; levels are nested: two bins in one cluster at level L are in one cluster at level L2; the merged pair satisfies 0 <= c1 < c2 < #clusters whatever the float distances are; every access of cluster_x0 / r1 / r2 / rx / id has both leading indices in [0, bins); all seven loops terminate (decreases clauses)',
+            'THOROUGH tier only (target acc_cluster, ~50 s): accumulator_t::cluster() (k-split tables; symbolic number of bins >= 1; ghost bins b, b2, ghost levels L < L2): rows are built in order, row t as a copy of the finished row t - 1, and a finished row is never read or written again; cluster_id(L, b) is in [0, bins - L) -- every bin belongs to exactly one cluster of its level, below the level\'s number of clusters bins - L -- and cluster_id(0, b) == b; levels are nested: two bins in one cluster at level L are in one cluster at level L2; the merged pair satisfies 0 <= c1 < c2 < #clusters whatever the float distances are; every access of cluster_x0 / r1 / r2 / rx / id has both leading indices in [0, bins); all seven loops terminate (decreases clauses)',
             'dtree do_predict: through wlearner_t::split (compatibility check, then do_split) the row i of outputs receives exactly one update, the m_tables row of the group split() reports for samples(i), and none if there is no group; depth 1: the stump_do_predict contract',
         ],
         'not_decided': [
